@@ -1034,7 +1034,7 @@ def run(tier):
         ck.note('re-running %d cases that were cut by the batch watchdog, each alone' % len(hung))
         from concurrent.futures import ThreadPoolExecutor
         with ThreadPoolExecutor(max(1, min(J, len(hung)))) as tex:
-            res = list(tex.map(lambda c: run_cases(binary, [c], shards=1, tag='c11h', per_case_timeout=20.0), hung))
+            res = list(tex.map(lambda c: run_cases(binary, [c], shards=1, tag='c11h', per_case_timeout=90.0), hung))
         recs = {}
         for d in res:
             recs.update(d)
